@@ -28,6 +28,12 @@ Theorem C04_render_total : forall v, control_state_string v <> Panic.
 Proof. exact render_total. Qed.
 Print Assumptions C04_render_total.
 
+(* the hex dump the driver formats for every request and every received datagram (before it looks at the debug flag):
+   total, and every byte is printed exactly once, in order - for byte strings of every length *)
+Theorem C04_dump_total : forall m, exists rows, dump m = Ok rows /\ concat rows = m.
+Proof. exact dump_total. Qed.
+Print Assumptions C04_dump_total.
+
 (* generated-data obligation: no panic-capable expression in the source that was not reviewed *)
 Theorem C04_panic_sites_covered : forallb (fun s => existsb (site_eqb s) covered_sites) panic_sites = true.
 Proof. exact panic_sites_covered. Qed.
